@@ -62,8 +62,8 @@ def _check_main(run, P):
              "copy-on-write structure", minimum=2)
     run.rule("C12.init", "every symbol-table entry is nullified at function entry and "
              "in initialize", minimum=2)
-    run.rule("C12.shutdown", "shutdown releases every global entry before the leak "
-             "report", minimum=1)
+    run.rule("C12.shutdown", "shutdown releases every global entry; no generated test "
+             "combines associated() with a look through the pointer", minimum=3)
     run.rule("C12.lastuse", "last-use table covers every statement and variable; "
              "release at last use is suppressed inside loops and for persistent "
              "variables", minimum=5)
@@ -381,15 +381,42 @@ def _init_shutdown(run, P):
                                    dotted(x.func) == "self.emit_variable_deinit"
                                    for x in ast.walk(n))]
     rep = [n for n in loops if "leaked reference" in ast.unparse(n)]
-    ok = bool(rel) and bool(rep) \
+    ok = bool(rel) \
         and len(core(rel[0].body, lambda s_: "self.emit_variable_deinit" in ast.unparse(s_))) == 1 \
-        and norm(rel[0].iter) == "sorted(self.sym_kind_table.global_table.items())" \
-        and not g.always_preceded([g.node_of(rep[0])], [g.node_of(rel[0])])
+        and norm(rel[0].iter) == "sorted(self.sym_kind_table.global_table.items())"
     run.ob("C12.shutdown", fs, rel[0] if rel else fs.node, ok,
-           construct="shutdown: release every global entry (no filter), then report "
-                     "what is still associated",
-           why="a persistent variable that is not released at shutdown leaks; a report "
-               "before the release is always non-empty")
+           construct="shutdown: release every global entry (no filter)",
+           why="a persistent variable that is not released at shutdown leaks")
+    # Fortran's .and. / .or. do not short-circuit: a generated condition that tests
+    # association must not look through the pointer in the same expression
+    m = P.module("dagrt.codegen.fortran")
+    n_assoc = 0
+    for fn_ in m.functions.values():
+        for x in ast.walk(fn_.node):
+            txt = None
+            if isinstance(x, ast.JoinedStr):
+                txt = "".join(v.value if isinstance(v, ast.Constant) else "{}" for v in x.values)
+            elif isinstance(x, ast.Constant) and isinstance(x.value, str):
+                txt = x.value
+            elif isinstance(x, ast.BinOp) and isinstance(x.op, ast.Add):
+                txt = string_value(x)
+            if not txt or "associated(" not in txt.replace(" ", ""):
+                continue
+            if isinstance(x, ast.Constant) and any(
+                    isinstance(p_, (ast.JoinedStr, ast.BinOp)) and any(y is x for y in ast.walk(p_))
+                    and p_ is not x for p_ in ast.walk(fn_.node)
+                    if isinstance(p_, ast.JoinedStr) or (isinstance(p_, ast.BinOp)
+                                                         and isinstance(p_.op, ast.Add))):
+                continue        # part of a longer text that is looked at as a whole
+            n_assoc += 1
+            low = txt.lower()
+            run.ob("C12.shutdown", fn_, x, ".and." not in low and ".or." not in low,
+                   construct=f"{fn_.name}: the generated test '{txt.strip()[:60]}' looks at the "
+                             f"association status only",
+                   why="both operands of .and. are evaluated: the other operand reads a "
+                       "reference count or a value through a pointer that is not associated")
+    if n_assoc < 2:
+        raise AnalysisError(f"fortran.py: only {n_assoc} generated association tests found")
 
 
 def _table_users(run, P):
